@@ -356,6 +356,45 @@ class Merges:
         return {"mergers": N0 - sim.N, "merged_at": merged_at, "worst": worst, "final": final}
 
 
+class Flybys:
+    """close encounters without a collision: the hybrid integrators switch method (and TRACE rejects and repeats steps) while the
+    whole system moves; every insertion order of the planets"""
+    def __init__(self, rebound):
+        self.rebound = rebound
+
+    def __call__(self, task):
+        order, integ, o, nsteps = task
+        rb.quiet()
+        rebound = self.rebound
+        bodies = {"A": dict(m=1e-4, a=1.0, e=0.01, f=0.0), "B": dict(m=1e-4, a=1.03, e=0.01, f=-0.06), "C": dict(m=1e-5, a=3.0, e=0.1, f=1.0), "D": dict(m=3e-5, a=0.5, e=0.3, f=2.0)}
+        sim = rebound.Simulation()
+        sim.add(m=1.0)
+        for nm in order:
+            sim.add(primary=sim.particles[0], **bodies[nm])
+        sim.move_to_com()
+        for p in sim.particles:
+            p.vx += 0.05
+            p.vz -= 0.02
+            p.y += 0.3
+        lattice.apply_options(sim, integ, o)
+        sim.dt = 0.02
+        inv0 = invariants(sim)
+        worst = [0.0, 0.0, 0.0, 0.0]
+        for k in range(nsteps // 50):
+            sim.steps(50)
+            c = sim.copy() if o.get("safe_mode", 1) == 0 else sim
+            c.synchronize()
+            iv = invariants(c)
+            sc = inv0["scales"]
+            t = LD(c.t)
+            m_ = (float(np.max(np.abs(iv["P"] - inv0["P"]))) / sc["P"],
+                  float(np.max(np.abs(iv["C"] - inv0["C"] - inv0["P"] * t))) / (sc["C"] + sc["P"] * abs(float(t))),
+                  float(np.max(np.abs(iv["L"] - inv0["L"]))) / max(iv["scales"]["L"], sc["L"]),
+                  float(abs(iv["E"] - inv0["E"]) / abs(inv0["Eint"])))
+            worst = [max(a, b) for a, b in zip(worst, m_)]
+        return worst
+
+
 # ------------------------------------------------------------------------------------------------ D diagnostics
 class Diagnostics:
     def __init__(self, rebound):
@@ -515,6 +554,28 @@ def run(ctx):
                 ctx.violation("merge-order-dependence:%s" % integ, "%s%s shift %g: final positions differ by %.3g between insertion orders %s and %s" % (
                     integ, o, sh, d, "".join(order), "".join(ref_order)), {"order": list(order), "integrator": [integ, o], "shift": sh})
     merged_steps = sorted({v["merged_at"] for lst in groups.values() for _, v in lst if v["merged_at"] is not None})
+    # ---- E close encounters without a collision, moving system
+    FI = [("mercurius", {}), ("mercurius", {"safe_mode": 0}), ("trace", {"peri_mode": "PARTIAL_BS"}), ("trace", {"peri_mode": "FULL_BS"}), ("trace", {"peri_mode": "FULL_IAS15"}), ("ias15", {})]
+    fnames = ["A", "B", "C"] if quick else ["A", "B", "C", "D"]
+    ft = [(order, integ, o, 2000 if quick else 10000) for integ, o in FI for order in itertools.permutations(fnames)]
+    fres = pool.run_tasks(Flybys(rebound), ft, timeout=900, chunk=1)
+    for t, r in zip(ft, fres):
+        order, integ, o, nst = t
+        lab = "%s%s, planets added as %s, %d steps through repeated close encounters, moving system" % (integ, o, "".join(order), nst)
+        case = {"flyby": ["".join(order), integ, o]}
+        if r[0] != "ok":
+            ctx.violation("flyby-run-%s:%s" % (r[0], integ), "%s: %s %s" % (lab, r[0], str(r[1])[-300:]), case)
+            continue
+        w = r[1]
+        rn = math.sqrt(nst)
+        if w[0] > 1024 * U * rn:
+            ctx.violation("flyby-momentum:%s" % integ, "%s: total momentum changed by %.3g of its scale" % (lab, w[0]), case)
+        elif w[1] > 1024 * U * rn:
+            ctx.violation("flyby-com:%s" % integ, "%s: the centre of mass left its straight line by %.3g of its scale (rounding level %.3g)" % (lab, w[1], 1024 * U * rn), case)
+        if w[3] > (1e-11 if integ == "ias15" else 1e-4):
+            ctx.violation("flyby-energy:%s" % integ, "%s: |dE/E| reached %.3g" % (lab, w[3]), case)
+        if w[2] > (1e-12 if integ == "ias15" else 1e-8):
+            ctx.violation("flyby-angular-momentum:%s" % integ, "%s: angular momentum changed by %.3g of its scale" % (lab, w[2]), case)
     # ---- D
     dt = [(n, pat, nvar, soft, offs) for n in range(1, 7) for pat in ("equal", "ratio", "zero") for nvar in (0, 1) for soft in (0, 1) for offs in (0.0, 1e6)]
     dres = pool.run_tasks(Diagnostics(rebound), dt, timeout=300, chunk=4)
@@ -533,7 +594,7 @@ def run(ctx):
         "evaluations": len(cfgs) * blocks + nt + len(mt) * 40 + len(dt),
         "distinct_nontrivial": len(cfgs) + nh + len(mt) + len(dt),
         "rule": "A: lattice runs (each measured at %d synchronisation points); B: distinct operation histories of depth <= %d over %d initial configurations x %d operations (measured after every operation); C: insertion orders x integrators x merge times; D: diagnostic cases" % (blocks, depth, len(INITIAL), len(OPS)),
-        "lattice_runs": len(cfgs), "histories": nh, "history_transitions": nt, "merge_runs": len(mt), "merge_steps_seen": merged_steps, "diagnostic_cases": len(dt),
+        "lattice_runs": len(cfgs), "histories": nh, "history_transitions": nt, "merge_runs": len(mt), "flyby_runs": len(ft), "merge_steps_seen": merged_steps, "diagnostic_cases": len(dt),
         "worst_over_rounding": {k: round(v, 3) for k, v in worst.items()}, "exhaustive": True, "samples": [cfgs[0]],
     }
     return ctx.finish(LEVEL, cov, assumptions=[
